@@ -1,5 +1,7 @@
 """Per-program driver of C06 (agreement with the VM) and C07 (validity of the emitted binary)."""
+import io
 import re
+import contextlib
 import z3
 from .. import core, symx, shims, unit, wasmref
 from ..symx import Engine
@@ -281,7 +283,92 @@ def concrete_source(inst, vals):
     return src
 
 
+# ------------------------------------------------------------------ one Compiler object for a series of programs (concrete gate)
+HISTORY_GOOD = [
+    "export function h{k}a(int a, int b) -> int {{ return a * b + 3; }}",
+    "export function h{k}b(int a, int b) -> int {{ return a - b; }}\nexport function h{k}c(int a, int b) -> int {{ return b - a; }}",
+    "export function h{k}d(float x, float y) -> float {{ return x - y * y; }}",
+    "export function h{k}e(int a) -> void {{ a = a + 1; return; }}\nexport function h{k}f(int a, int b) -> int {{ return a / b; }}",
+    "export function h{k}g() -> int {{ return 41; }}",
+]
+HISTORY_REFUSED = [
+    "export function r{k}a(int a) -> int {{ return a + 1; }}\nexport function r{k}b(int a, float b) -> float {{ return a * b; }}",     # a cast in the second function
+    "export function r{k}c(float2 v) -> float {{ return v.x; }}",                                                                  # a parameter that is not a value type
+    "export function r{k}d(int a) -> int {{ int x = a; return x; }}",                                                                # a local variable
+    "export function r{k}e(int a, int b) -> int {{ return a % b; }}",                                                                # an operator without an instruction
+    "export function r{k}f(int a) -> int {{ return a + 4294967296; }}",                                                              # a constant that does not fit
+]
+
+
+def run_history(inst, mode):
+    """Programs handed to ONE Compiler object one after the other, accepted ones and ones the backend refuses interleaved as `order` says:
+    what is emitted for an accepted program must be a valid module (and compute what the VM computes) whatever was compiled before."""
+    from nsl import Compiler
+    pid = "C07" if mode == "validity" else "C06"
+    res = dict(paths=0, queries=0, unsat=0, sat=0, undecided=0, cut=0, violations=[], errors=[], nontrivial=False, known=[], solver_time=0.0,
+               key=repr(sorted(inst.items())), sample=dict(inst), funcs=FUNCS)
+    c = Compiler.Compiler()
+    emitted = refused = 0
+    with shims.no_wasm_shims():
+        for k, step in enumerate(inst["order"]):
+            kind, idx = step[0], int(step[1:])
+            src = (HISTORY_GOOD if kind == "g" else HISTORY_REFUSED)[idx].format(k=k)
+            res["paths"] += 1
+            out = io.StringIO()
+            try:
+                with contextlib.redirect_stdout(out), contextlib.redirect_stderr(out):
+                    r = c.Compile(src, {"wasm": True})
+                buf = io.BytesIO()
+                r.WasmModule.WriteTo(buf)
+                data = buf.getvalue()
+            except Exception as e:  # noqa: BLE001 -- an error is reported: nothing is emitted
+                refused += 1
+                if kind == "g":
+                    st, _ = wasmfam.public_compile_wasm(src)
+                    if st == "bytes":
+                        res["violations"].append(dict(what=f"step {k} of the history {inst['order']}: a program a fresh compiler translates is refused ({type(e).__name__}: {str(e)[:80]}) by a compiler that compiled other programs before",
+                                                      replay=dict(harness=pid, inst=inst, kind="history")))
+                        break
+                continue
+            emitted += 1
+            try:
+                cm = wasmref.decode(list(data))
+                wasmref.validate(cm)
+            except (wasmref.Malformed, wasmref.Invalid) as e:
+                res["violations"].append(dict(what=f"step {k} of the history {inst['order']}: the emitted module is not a valid WebAssembly 1.0 binary ({type(e).__name__}: {e}); the same program is "
+                                                   f"translated correctly by a fresh compiler: {wasmfam.public_compile_wasm(src)[0] == 'bytes'}; {dict(source=src, module=data.hex())}",
+                                              replay=dict(harness=pid, inst=inst, kind="history")))
+                break
+            if mode == "agreement":
+                prog = skeleton(src)
+                linked = joint.link(r)
+                for f in prog.funcs:
+                    if not f.exported or any(t not in ("int", "float") for t, _ in f.params):
+                        continue
+                    for vec in ((3, 5), (-4, 2), (7, -3)):
+                        cargs = {n: (v if t == "int" else v + 0.5) for (t, n), v in zip(f.params, vec)}
+                        try:
+                            r_vm, _ = joint.vm_run(linked, f.name, dict(cargs), {}, [])
+                            wasmref.WRAPPED = False
+                            o = wasmref.call(cm, wasmref.export_index(cm, f.name), [cargs[n] for _, n in f.params])
+                        except (ZeroDivisionError, wasmref.Trap, KeyError):
+                            continue
+                        r_w = o[0] if o else None
+                        if wasmref.WRAPPED:
+                            continue
+                        if (r_vm is None) != (r_w is None) or (r_vm is not None and not joint.close(float(r_vm), float(r_w), 1e-6)):
+                            res["violations"].append(dict(what=f"step {k} of the history {inst['order']}: {f.name}{tuple(cargs.values())} is {r_vm} on the VM and {r_w} in the emitted module",
+                                                          replay=dict(harness=pid, inst=inst, kind="history")))
+                            break
+    res["nontrivial"] = emitted > 0
+    res["counters"] = dict(history_modules_emitted=emitted, history_programs_refused=refused)
+    return res
+
+
 def replay(spec):
+    if spec.get("kind") == "history":
+        r = run_history(spec["inst"], "validity" if spec.get("harness") == "C07" else "agreement")
+        return dict(violations=[v["what"][:300] for v in r["violations"]][:2]) if r["violations"] else None
     """through the public API: Compile(src, {'wasm': True}), WriteTo, then a conforming engine (wasmtime)"""
     inst = spec["inst"]
     vals = spec.get("inputs", {})
